@@ -55,5 +55,11 @@ _b = os.path.join(_root, "facts_baseline")
 os.makedirs(_b, exist_ok=True)
 for _f in glob.glob(os.path.join(_b, "*.lean")):
     os.remove(_f)
-for _f in glob.glob(os.path.join(_root, "lean", "FoxModel", "Generated", "*.lean")):
-    shutil.copy(_f, _b)
+_exe = os.path.join(_root, ".build", "foxfacts")
+if os.path.exists(_exe) and os.path.isdir("/repo"):
+    # straight from /repo (never from a Generated/ directory that a run against a scratch copy may have left behind)
+    import subprocess
+    subprocess.run([_exe, "/repo", _b], check=True, capture_output=True)
+else:
+    for _f in glob.glob(os.path.join(_root, "lean", "FoxModel", "Generated", "*.lean")):
+        shutil.copy(_f, _b)
